@@ -42,11 +42,73 @@ fn prelude() -> BlockStmt {
         let_("r", int(0)),
         es(func("zet", &["x", "k", "w"], vec![es(assign(index(ident("x"), ident("k")), ident("w"))), es(ident("x"))])),
         es(func("lees", &["x", "k"], vec![es(index(ident("x"), ident("k")))])),
+        // measurements of a value that must agree with its content whatever happened to it before:
+        // [length, last character by positive index, last by -1, first by 0, first by -length]
+        es(func(
+            "maat",
+            &["x"],
+            vec![
+                es(iff(
+                    infix(calln("type", vec![ident("x")]), Operator::Eq, string("string")),
+                    vec![
+                        es(iff(
+                            infix(calln("lengte", vec![ident("x")]), Operator::Gt, int(0)),
+                            vec![Stmt::Return(array(vec![
+                                calln("lengte", vec![ident("x")]),
+                                index(ident("x"), infix(calln("lengte", vec![ident("x")]), Operator::Subtract, int(1))),
+                                index(ident("x"), neg(int(1))),
+                                index(ident("x"), int(0)),
+                                index(ident("x"), neg(calln("lengte", vec![ident("x")]))),
+                            ]))],
+                            None,
+                        )),
+                        Stmt::Return(array(vec![int(0)])),
+                    ],
+                    None,
+                )),
+                es(array(vec![neg(int(1))])),
+            ],
+        )),
     ]
 }
 
 fn collector() -> Stmt {
-    es(array(vec![ident("a0"), ident("a1"), ident("a2"), ident("a3"), ident("r")]))
+    es(array(vec![
+        ident("a0"),
+        ident("a1"),
+        ident("a2"),
+        ident("a3"),
+        ident("r"),
+        array(vec![calln("maat", vec![ident("a0")]), calln("maat", vec![ident("a1")]), calln("maat", vec![ident("a2")]), calln("maat", vec![ident("a3")])]),
+    ]))
+}
+
+/// the measurements in the result must agree with the contents in the same result (implementation against itself)
+fn measurements_consistent(v: &Val) -> Result<(), String> {
+    let items = match v {
+        Val::Arr(_, items) if items.len() == 6 => items,
+        _ => return Ok(()),
+    };
+    let ms = match &items[5] {
+        Val::Arr(_, m) => m,
+        _ => return Ok(()),
+    };
+    // a variable may alias an earlier one: then it appears as a back reference and is measured through the first occurrence
+    for (k, m) in ms.iter().enumerate().take(4) {
+        if let (Val::Str(s), Val::Arr(_, m)) = (&items[k], m) {
+            let chars: Vec<char> = s.chars().collect();
+            let want: Vec<Val> = if chars.is_empty() {
+                vec![Val::Int(0)]
+            } else {
+                let (first, last) = (chars[0].to_string(), chars[chars.len() - 1].to_string());
+                vec![Val::Int(chars.len() as i64), Val::Str(last.clone()), Val::Str(last), Val::Str(first.clone()), Val::Str(first)]
+            };
+            if *m != want {
+                return Err(format!("a{k} is {:?} but its measurements are {}", s, Val::Arr(0, m.clone()).render()));
+            }
+        }
+    }
+    Ok(())
 }
 
 #[derive(Clone, Debug)]
@@ -121,7 +183,15 @@ fn gen_op(t: &mut Tape, kinds: &mut [Kind; 4]) -> Stmt {
         5 => es(assign(ident("r"), index(ident(v), gen_index(t, len_of(k))))),
         6 | 7 => {
             let i = gen_index(t, len_of(k));
-            let val = if matches!(k, Kind::Str(_)) && t.maybe(230) || t.maybe(40) { string(t.pick_str(&CHARS)) } else { gen_value(t, 1) };
+            let val = if matches!(k, Kind::Str(_)) && t.maybe(25) {
+                // U21: a replacement that is not one character long (the value is then not compared, the measurements still are)
+                let n = *t.pick(&[0usize, 2, 3]);
+                string(&str_of(t, n))
+            } else if matches!(k, Kind::Str(_)) && t.maybe(230) || t.maybe(40) {
+                string(t.pick_str(&CHARS))
+            } else {
+                gen_value(t, 1)
+            };
             es(assign(index(ident(v), i), val))
         }
         8 => es(assign(ident("r"), calln("lengte", vec![ident(v)]))),
@@ -185,6 +255,11 @@ fn check_seq(ops: &[Stmt], stats: Option<&mut RefObs>) -> Result<Option<RefObs>,
         *s = r.clone();
     }
     let (o, snap) = run_eval_snapshot(&src, &RunCfg { budget: VM_BUDGET, audit_heap: true }, 5);
+    if let Outcome::Value(v) = &o.outcome {
+        if let Err(m) = measurements_consistent(v) {
+            return Err(("measurements-disagree-with-content".into(), json!({"src": src}), "lengte and the first / last character agree with the text itself".into(), m));
+        }
+    }
     match compare(&r, &o) {
         Verdict::Agree => {}
         Verdict::Discard(_) => return Ok(None),
@@ -203,9 +278,9 @@ fn check_seq(ops: &[Stmt], stats: Option<&mut RefObs>) -> Result<Option<RefObs>,
         let before = program_of(&ops[..k]);
         let rb = run_reference(&before, REF_BUDGET);
         if let (RefOutcome::Value(Val::Arr(_, want)), Some(got)) = (&rb.outcome, &snap) {
-            // compare a0..a3 and r as one graph
+            // compare a0..a3 and r as one graph (the measurements at the end of the collector are not part of the state)
             let got_v = Val::Arr(0, renumber(got));
-            let want_v = Val::Arr(0, want.clone());
+            let want_v = Val::Arr(0, want.iter().take(5).cloned().collect());
             if !want_v.agrees(&got_v) {
                 return Err((
                     "failed-operation-changed-state".into(),
